@@ -129,6 +129,12 @@ class IndexModel:
         opaque = sorted((a for a in used if a not in known), key=str)
         if len(opaque) > 3:
             return None
+        # an expression this model could not linearise is an independent input only if it does not depend on the index, the length
+        # or the peer's index; otherwise its value is tied to theirs and no assignment found here is a counterexample
+        from ..paths import subexprs
+        for a in opaque:
+            if isinstance(a, tuple) and any(self.classify(x) in ("own", "L", "peer") for x in subexprs(a) if isinstance(x, tuple)):
+                return None
         names += opaque
         doms += [range(0, 5)] * len(opaque)
         for vals in product(*doms):
